@@ -407,6 +407,10 @@ pub fn gen_steps(sw: &mut Rng, wl: &mut Rng, sheets: usize, n: usize) -> Vec<Ste
                 let s = match wl.usize(4) {
                     0 => Op::SetActive { sheet: wl.usize(sheets) },
                     1 => Op::SetState { sheet: 1 + wl.usize(sheets.max(2) - 1), state: ["hidden", "veryHidden", "visible"][wl.usize(3)].to_string() },
+                    2 if wl.chance(1, 3) => Op::RenameSheet {
+                        sheet: wl.usize(sheets),
+                        name: ["O'Brien", "R&D <x>", "a \"q\" b", "Überblick 日本", "exactly thirty-one characters!!", "Sheet 1", "1st"][wl.usize(7)].to_string(),
+                    },
                     2 => Op::RenameSheet { sheet: wl.usize(sheets), name: format!("R{} {}", i, world::gen_text(wl, if alpha == 1 || alpha == 4 { 3 } else { alpha }, 2).replace(['/', '\\', '?', '*', '[', ']', ':', '\n', '\t', '\r'], "_")) },
                     _ => Op::NewSheet { name: format!("N{}", i) },
                 };
